@@ -178,7 +178,7 @@ def run_trace(task):
             if op["op"] in ("open", "cli", "mutate", "copy", "drop", "load"):
                 ev.update(prod_changed="product_modified" in f, cache_foreign="cache_unasked" in f)
             if op["op"] in ("open", "cli"):
-                ev["cells"] = {w: {l: dict(obs["cells"][w][l]) for l in locs} for w in ("local", "adjacent")}
+                ev["cells"] = {w: {l: (dict(obs["cells"][w][l]) if l in locs else {"a": "absent", "b": "absent"}) for l in ("P", "Q")} for w in ("local", "adjacent")}
             lines.append(ev)
             hist.append(op)
             if f:
@@ -203,31 +203,51 @@ def validate(chk, results, own, path):
                 n += 1
     r = tlc.run_ok("Trace_Alos2", "Trace_Alos2", workers=1, env={"TRACE_FILE": path}, timeout=3000)
     chk.tlc_stats(r)
-    verdicts = {int(m.group(1)): (m.group(2), int(m.group(3)), m.group(4), int(m.group(5))) for m in re.finditer(r'<<"VERDICT", (\d+), "(\w+)", (\d+), "([^"]*)", (\d+)>>', r.out)}
+    verdicts = {}
+    pos = 0
+    while True:
+        mm = re.compile(r'<<\s*"VERDICT"').search(r.out, pos)
+        if mm is None:
+            break
+        i = mm.start()
+        depth, j = 0, i
+        while True:  # bracket matching: TLC wraps long values over several lines
+            if r.out.startswith("<<", j):
+                depth += 1
+                j += 2
+            elif r.out.startswith(">>", j):
+                depth -= 1
+                j += 2
+                if depth == 0:
+                    break
+            else:
+                j += 1
+        v = tlc.parse_tla_value(r.out[i:j])
+        verdicts[int(v[1])] = (v[2], [(int(b[0]), b[1]) for b in v[4]], int(v[3]))
+        pos = j
     if len(verdicts) != len(results):
         raise checklib.Machinery(f"Trace_Alos2: {len(verdicts)} verdicts for {len(results)} traces\n" + r.out[-1500:])
     drift, others = 0, {}
-    for tid, (st, line, clause, nd) in verdicts.items():
+    for tid, (st, bads, nd) in verdicts.items():
         res = results[tid - 1]
         drift += nd
-        if st != "rejected":
-            continue
-        k = line - start[tid]  # 1-based line within the trace (hdr = 1)
-        if clause.startswith("not-enabled"):
-            raise checklib.Machinery(f"Trace_Alos2: trace {tid} line {k}: the driver issued an operation the specification does not enable: {res['lines'][k - 2]}")
-        if clause in ("cells", "written") or clause.startswith("drift:"):
-            drift += 1
-            continue
-        found = res["cats"].get(k, {})
-        cs = [c for c in found if c in CONTENT] if clause.startswith("content") else CLAUSE_CATS.get(clause, [clause])
-        for c in cs:
-            msg = "; ".join(found.get(c, [clause]))[:400]
-            if c in own:
-                short = res["hist"][: k - 1]
-                chk.violation(f"session-trace:{c}", f"[recorded session of {len(res['lines'])} steps, {res['task']['level']} on {res['task']['fs']}: TLC rejects line {k}, clause {clause}] {msg}",
-                              {"task": res["task"], "history": short, "category": c, "clause": clause})
-            else:
-                others[c] = others.get(c, 0) + 1
+        for line, clause in bads:
+            k = line - start[tid]  # 1-based line within the trace (hdr = 1)
+            if clause.startswith("not-enabled"):
+                raise checklib.Machinery(f"Trace_Alos2: trace {tid} line {k}: the driver issued an operation the specification does not enable: {res['lines'][k - 2]}")
+            if clause.startswith("drift:"):
+                drift += 1
+                continue
+            found = res["cats"].get(k, {})
+            cs = [c for c in found if c in CONTENT] if clause.startswith("content") else CLAUSE_CATS.get(clause, [clause])
+            for c in cs:
+                msg = "; ".join(found.get(c, [clause]))[:400]
+                if c in own:
+                    short = res["hist"][: k - 1]
+                    chk.violation(f"session-trace:{c}", f"[recorded session of {len(res['lines'])} steps, {res['task']['level']} on {res['task']['fs']}: TLC rejects line {k}, clause {clause}] {msg}",
+                                  {"task": res["task"], "history": short, "category": c, "clause": clause})
+                else:
+                    others[c] = others.get(c, 0) + 1
     return verdicts, drift, others
 
 
